@@ -589,6 +589,26 @@ def rule_get_pure(ctx):
     if n_self > 1:
         ctx.bad("SI.GET-PURE", fi.qual + "#append-count", fi, fi.node, "get() contains %d modifications of the section; "
                 "exactly one append is expected" % n_self)
+    # the append is the commit point: nothing that can raise follows it, so a get(add=True) that fails leaves the section as it was
+    # (a half-built item left behind makes `key in section` true for an item get() never returned)
+    for c in walk_shallow(fi.node):
+        if isinstance(c, ast.Call) and isinstance(c.func, ast.Attribute) and c.func.attr == "append" \
+                and isinstance(c.func.value, ast.Name) and c.func.value.id == "self":
+            for a in cfg.node_of_expr(c) or []:
+                for nid in cfg.reachable(a, skip_labels=EXC):
+                    st = cfg.nodes[nid].ast
+                    if st is None or nid == a or isinstance(st, (ast.Return, ast.Pass)) or cfg.nodes[nid].kind in ("join", "exit", "entry"):
+                        continue
+                    if isinstance(st, ast.Expr) and isinstance(st.value, ast.Call) and ast.unparse(st.value.func).startswith(("logger.", "logging.")):
+                        continue
+                    if isinstance(st, ast.Expr) and isinstance(st.value, ast.Constant):
+                        continue
+                    if cfg.nodes[nid].kind == "test" and isinstance(st, (ast.Name, ast.Constant)):
+                        continue
+                    ctx.bad("SI.GET-PURE", fi.qual + "#commit-last", fi, st,
+                            "get() goes on with `%s` after the new item was appended: if that raises, the failed get() leaves a "
+                            "half-built item in the section, which membership and later lookups then report" % unparse(st)[:80])
+                    break
     # what is returned / appended never aliases the default object
     rps = ea.return_paths(fi)
     alias = [x for x in rps if x[0] == ("param", defp)]
@@ -1305,6 +1325,17 @@ def rule_pk_independent(ctx):
                                         "constructor does not take (mnemonic_transforms of a section that was read from a file, ...) is "
                                         "reset in the copy, which then answers lookups differently from the original"
                                         % (cls.name, unparse(r_.value), cfg.describe_path(pth)))
+            # no shallow copy on the way: `copy.copy(item)` as a fallback (say, when the deep copy of one item raises) hands the
+            # copy an item that shares its data array and value with the original
+            scope = [fi] + [cls.methods[c.func.attr] for c in walk_shallow(fi.node)
+                            if isinstance(c, ast.Call) and isinstance(c.func, ast.Attribute) and isinstance(c.func.value, ast.Name)
+                            and c.func.value.id in ("self", "cls", cls.name) and c.func.attr in cls.methods]
+            for g in scope:
+                for c in walk_shallow(g.node):
+                    if isinstance(c, ast.Call) and ast.unparse(c.func) in ("copy.copy", "copy_module.copy", "_copy.copy"):
+                        ctx.bad("PK.INDEPENDENT", site + ":shallow", g, c,
+                                "%s.__deepcopy__ can take a shallow copy (`%s` in %s): the copied object shares its data array / value "
+                                "with the original, so editing one changes the other" % (cls.name, unparse(c), g.name))
             ctx.check(deep, "PK.INDEPENDENT", site, fi, fi.node,
                       "%s.__deepcopy__ deep-copies its fields" % cls.name,
                       "%s.__deepcopy__ builds the copy without deep-copying its fields (calls: %s): np.asarray in the constructor "
